@@ -5,6 +5,7 @@ package core
 import (
 	"fmt"
 	"go/ast"
+	"go/parser"
 	"go/token"
 	"go/types"
 	"os"
@@ -83,6 +84,30 @@ type Program struct {
 	fileOf map[*ast.File]*packages.Package
 
 	Stats map[string]int
+
+	// IsFixture marks the synthetic single-package program used for positive controls.
+	IsFixture bool
+
+	fixMu    sync.Mutex
+	fixtures map[string]*Program
+}
+
+// CachedFixture builds (once) the fixture program for the given name/source.
+func (p *Program) CachedFixture(name, src string) (*Program, error) {
+	p.fixMu.Lock()
+	defer p.fixMu.Unlock()
+	if p.fixtures == nil {
+		p.fixtures = map[string]*Program{}
+	}
+	if q, ok := p.fixtures[name]; ok {
+		return q, nil
+	}
+	q, err := p.Fixture(name, src)
+	if err != nil {
+		return nil, err
+	}
+	p.fixtures[name] = q
+	return q, nil
 }
 
 // Load parses and type-checks every package of the module at dir.
@@ -325,4 +350,45 @@ func ObjFuncKey(f *types.Func) string {
 		return fmt.Sprintf("%s.(%s).%s", sp, name, f.Name())
 	}
 	return sp + "." + f.Name()
+}
+
+// loadedImporter resolves imports from the packages already loaded for the analysed module.
+type loadedImporter struct{ byPath map[string]*types.Package }
+
+func (li loadedImporter) Import(path string) (*types.Package, error) {
+	if p, ok := li.byPath[path]; ok {
+		return p, nil
+	}
+	return nil, fmt.Errorf("fixture import %q not among the loaded packages", path)
+}
+
+// Fixture type-checks the given source (one file) against the loaded packages and returns a
+// Program that contains only that synthetic package. It is used for positive controls: rules
+// whose expected finding count on the repository is zero must still fire on a known-bad example.
+func (p *Program) Fixture(name, src string) (*Program, error) {
+	file, err := parser.ParseFile(p.Fset, name+".go", src, parser.ParseComments)
+	if err != nil {
+		return nil, err
+	}
+	li := loadedImporter{map[string]*types.Package{}}
+	for _, pk := range p.All {
+		if pk.Types != nil {
+			li.byPath[pk.PkgPath] = pk.Types
+		}
+	}
+	info := &types.Info{
+		Types: map[ast.Expr]types.TypeAndValue{}, Defs: map[*ast.Ident]types.Object{}, Uses: map[*ast.Ident]types.Object{},
+		Implicits: map[ast.Node]types.Object{}, Selections: map[*ast.SelectorExpr]*types.Selection{},
+		Scopes: map[ast.Node]*types.Scope{}, Instances: map[*ast.Ident]types.Instance{},
+	}
+	conf := types.Config{Importer: li}
+	path := ModPath + "/internal/" + name
+	tp, err := conf.Check(path, p.Fset, []*ast.File{file}, info)
+	if err != nil {
+		return nil, err
+	}
+	pk := &packages.Package{ID: path, Name: name, PkgPath: path, Syntax: []*ast.File{file}, Types: tp, TypesInfo: info, Fset: p.Fset}
+	q := &Program{RepoDir: p.RepoDir, Fset: p.Fset, Pkgs: []*packages.Package{pk}, ByPath: map[string]*packages.Package{path: pk},
+		All: append([]*packages.Package{pk}, p.All...), fileOf: map[*ast.File]*packages.Package{file: pk}, Stats: map[string]int{}, IsFixture: true}
+	return q, nil
 }
